@@ -37,7 +37,7 @@ class Boom(Exception):
 
 
 # ====================================================================================== WSGI event stream on threads
-def run_wsgi_sse(prefix, n_items, raise_at, consume, line_points, max_timeouts, empty_at=None, cleanup_raises=False, streams=1):
+def run_wsgi_sse(prefix, n_items, raise_at, consume, line_points, max_timeouts, empty_at=None, cleanup_raises=False, streams=1, shared=False):
     """One execution of `streams` WSGI event-stream responses (each with its own server thread and producer) under the baton
     scheduler. The library's own ThreadPoolExecutor subclass stays in the loop: only the base class's submit() is redirected
     to the controlled-thread pool, so baize's submit() wrapper (context copy) runs for real."""
@@ -69,6 +69,18 @@ def run_wsgi_sse(prefix, n_items, raise_at, consume, line_points, max_timeouts, 
         return gen()
 
     gens = [make_gen(o) for o in all_obs]
+
+    class Source:
+        """A source that can be iterated more than once (one response object serving several requests)."""
+
+        def __init__(self):
+            self.k = 0
+
+        def __iter__(self):
+            g = gens[self.k]
+            self.k += 1
+            return g
+    shared_box = {}
     old_queue, old_pool, old_submit = WR.queue, WR.SendEventResponse.thread_pool, CFT.ThreadPoolExecutor.submit
     WR.queue = VT.ShimQueueModule
     shim = VT.ShimPool()
@@ -82,7 +94,12 @@ def run_wsgi_sse(prefix, n_items, raise_at, consume, line_points, max_timeouts, 
         def server():
             def start_response(status, headers, exc_info=None):
                 obs["start_calls"] += 1
-            r = WR.SendEventResponse(g, ping_interval=1)
+            if shared:
+                if "r" not in shared_box:
+                    shared_box["r"] = WR.SendEventResponse(Source(), ping_interval=1)
+                r = shared_box["r"]
+            else:
+                r = WR.SendEventResponse(g, ping_interval=1)
             it = iter(r({"REQUEST_METHOD": "GET"}, start_response))
             try:
                 k = 0
@@ -138,11 +155,11 @@ def run_wsgi_sse(prefix, n_items, raise_at, consume, line_points, max_timeouts, 
     return S.execution(obs)
 
 
-def judge_wsgi_sse(o, n_items, raise_at, consume, empty_at=None, cleanup_raises=False):
+def judge_wsgi_sse(o, n_items, raise_at, consume, empty_at=None, cleanup_raises=False, shared=False):
     p = []
     for k, other in enumerate(o.get("others", ()), 2):
         sub = dict(other, others=(), watchdog=o["watchdog"], deadlock=o["deadlock"], livelock=o["livelock"], blocked=o["blocked"], thread_exc=[], pool_futures=o["pool_futures"])
-        p += [f"stream {k}: {x}" for x in judge_wsgi_sse(sub, n_items, raise_at, consume, empty_at, cleanup_raises)]
+        p += [f"stream {k}: {x}" for x in judge_wsgi_sse(sub, n_items, raise_at, consume, empty_at, cleanup_raises, shared)]
     if p:
         return p
     if o["watchdog"]:
@@ -157,10 +174,12 @@ def judge_wsgi_sse(o, n_items, raise_at, consume, empty_at=None, cleanup_raises=
         p.append("close() of the response iterable did not return")
     if any(s not in ("finished", "cancelled") for s in o["pool_futures"]):
         p.append(f"pool work item left in state {o['pool_futures']}")
-    if o["enter"] != o["exit"] or o["enter"] > 1:
-        p.append(f"producer cleanup ran {o['exit']} times for {o['enter']} entries")
-    if o["gen_state"] not in ("GEN_CLOSED", "GEN_CREATED") or (o["gen_state"] == "GEN_CREATED" and o["enter"]):
-        p.append(f"user generator left in state {o['gen_state']}")
+    if not shared:
+        # (with a re-iterable source the response only knows the source object, not the iterator it obtained from it)
+        if o["enter"] != o["exit"] or o["enter"] > 1:
+            p.append(f"producer cleanup ran {o['exit']} times for {o['enter']} entries")
+        if o["gen_state"] not in ("GEN_CLOSED", "GEN_CREATED") or (o["gen_state"] == "GEN_CREATED" and o["enter"]):
+            p.append(f"user generator left in state {o['gen_state']}")
     data = []
     for item in o["got"]:
         if not isinstance(item, bytes):
@@ -453,6 +472,8 @@ def wsgi_configs(tier):
             out.append((n, None, consume, 0, None, True, 1))
     for consume in (0, 1, None):
         out.append((1, None, consume, 0, None, False, 2))
+    out.append((1, None, None, 0, None, False, -2))  # streams = -2: one response object (re-iterable source) serving two overlapping requests
+    out.append((1, None, 1, 0, None, False, -2))
     return [c if len(c) == 7 else c + (False, 1) for c in out]
 
 
@@ -494,20 +515,22 @@ def run_shard(desc, tier):
     r = R()
     if desc[0] == "wsgi_sse":
         n, raise_at, consume, timeouts, empty_at, cleanup_raises, streams = wsgi_configs(tier)[desc[1]]
+        shared = streams < 0
+        streams = abs(streams)
         outcomes = set()
         for line_points, bound in (bounds_for(tier) if streams == 1 else [(False, 1 if tier == "quick" else 2)]):
             def run(prefix):
-                return run_wsgi_sse(prefix, n, raise_at, consume, line_points, timeouts, empty_at, cleanup_raises, streams)
+                return run_wsgi_sse(prefix, n, raise_at, consume, line_points, timeouts, empty_at, cleanup_raises, streams, shared)
 
             def on_exec(x):
                 r.count("evaluations")
                 r.count("traces")
                 r.count("transitions", len(x.choices))
-                probs = judge_wsgi_sse(x.obs, n, raise_at, consume, empty_at, cleanup_raises)
+                probs = judge_wsgi_sse(x.obs, n, raise_at, consume, empty_at, cleanup_raises, shared)
                 outcomes.add((x.obs["deadlock"], x.obs["enter"], x.obs["exit"], len(x.obs["got"]), x.obs["server_exc"], tuple(x.obs["pool_futures"])))
                 if probs:
                     kind = "deadlock" if "DEADLOCK" in probs[0] else ("livelock" if "LIVELOCK" in probs[0] else probs[0].split(" ")[0])
-                    r.violation(f"wsgi_sse:{kind}", {"driver": "wsgi_sse", "n": n, "raise_at": raise_at, "consume": consume, "timeouts": timeouts, "empty_at": empty_at, "cleanup_raises": cleanup_raises, "streams": streams, "line_points": line_points, "schedule": list(x.choices)},
+                    r.violation(f"wsgi_sse:{kind}", {"driver": "wsgi_sse", "n": n, "raise_at": raise_at, "consume": consume, "timeouts": timeouts, "empty_at": empty_at, "cleanup_raises": cleanup_raises, "streams": streams, "shared": shared, "line_points": line_points, "schedule": list(x.choices)},
                                 f"WSGI SendEventResponse, producer of {n} items (fails at {raise_at}, empty event at {empty_at}, cleanup raises: {cleanup_raises}, {streams} overlapping stream(s)), server takes {consume} items then close(), {timeouts} ping timeout(s), schedule {x.obs['trace'][-14:]}: {probs[0]}")
             nexec, capped = dfs(run, on_exec, bound=bound)
         r.count("states", len(outcomes))
@@ -553,8 +576,8 @@ def finish(merged, tier):
 
 def replay(w):
     if w["driver"] == "wsgi_sse":
-        x = run_wsgi_sse(list(w["schedule"]), w["n"], w["raise_at"], w["consume"], w["line_points"], w["timeouts"], w.get("empty_at"), w.get("cleanup_raises", False), w.get("streams", 1))
-        probs = judge_wsgi_sse(x.obs, w["n"], w["raise_at"], w["consume"], w.get("empty_at"), w.get("cleanup_raises", False))
+        x = run_wsgi_sse(list(w["schedule"]), w["n"], w["raise_at"], w["consume"], w["line_points"], w["timeouts"], w.get("empty_at"), w.get("cleanup_raises", False), w.get("streams", 1), w.get("shared", False))
+        probs = judge_wsgi_sse(x.obs, w["n"], w["raise_at"], w["consume"], w.get("empty_at"), w.get("cleanup_raises", False), w.get("shared", False))
         return bool(probs), {"problems": probs, "trace": x.obs["trace"][-30:]}
     if w["driver"] == "wsgi_stream":
         r = R()
